@@ -33,7 +33,9 @@ func genAtom(r *rand.Rand, depth int, o entryOpts) string {
 	case 0:
 		return lit()
 	case 1:
-		return pick(r, []string{"[a-c]", "[abc]", "[^x]", "[0-9]", "[a-z0-9_]", "[^a-z]", "[\\s]", "[\\s\\d]", "[^\\s]", "[\\sx-z]", "[ -~]", "[\\s!-~]", "[\\t ]", "[-a]"})
+		return pick(r, []string{"[a-c]", "[abc]", "[^x]", "[0-9]", "[a-z0-9_]", "[^a-z]", "[\\s]", "[\\s\\d]", "[^\\s]", "[\\sx-z]", "[ -~]", "[\\s!-~]", "[\\t ]", "[-a]",
+			// white space next to members that sort before the tab, after the blank, and on both sides
+			"[\\x00\\s]", "[\\a\\s]", "[\\x00-\\x06\\s<>]", "[\\x01\\s!-~]", "[^\\x00\\s]", "[\\x08\\s\\x0e]"})
 	case 2:
 		return pick(r, []string{"\\s", "\\d", "\\w", "\\S", "\\W", "\\b", "\\.", "\\-", "\\(", "\\)", "\\[", "\\|", "\\*", "\\?", "\\+", "\\$", "\\^", "\\/"})
 	case 3:
